@@ -88,5 +88,165 @@ def check_C14(tier):
     return res.finish()
 
 
+def multi_trace(res, vh, stage, clients, badpeers, conns, maxlen, transport):
+    tr = os.path.join(res.wd, "mtrace-%s.ndjson" % stage)
+    fails, summ, _ = run_vh(vh, ["conntrace", "--conns=%d" % conns, "--maxlen=%d" % maxlen, "--clients=%d" % clients,
+                                 "--badpeers=%d" % badpeers, "--out=" + tr, "--transport=" + transport], [], timeout=1800)
+    res.add_failures(fails, stage)
+    from .conn_checks import BUGS_OFF
+    validate_trace(res, "Trace_Conn", tr, stage, consts=BUGS_OFF)
+    res.traces += summ["conns"]
+    res.evaluations += summ["conns"]
+    res.extra["requests_" + stage] = summ["requests"]
+    return summ
+
+
 def neighbours_stage(res, vh, thorough, faulty=False):
-    pass
+    """healthy clients (validated against Trace_Conn) beside idle / silent / mid-message-disconnecting / garbage-sending peers"""
+    multi_trace(res, vh, "neighbours", 8, 8, 600 if thorough else 120, 10, "unix")
+
+
+def multiconn_model(res, initial, mx, njobs, maxlen, tag, live=False):
+    from .conn_checks import BUGS_OFF
+    consts = dict(pool_consts(initial, mx, njobs), MaxLen=maxlen, BugSharedCursor=False, **BUGS_OFF)
+    del consts["Emit"]
+    if live:
+        cfg = write_cfg(os.path.join(res.wd, "MC_MultiConn_live_%s.cfg" % tag), spec="FairNoClose", constants=consts,
+                        properties=["IdleDoesNotBlock"])
+    else:
+        cfg = write_cfg(os.path.join(res.wd, "MC_MultiConn_%s.cfg" % tag), spec="Spec", constants=consts,
+                        invariants=["PerConnRefines", "OwnRepliesOnly", "Bounded"])
+    r = run_tlc("MC_MultiConn", cfg, res.wd, workers=8, timeout=2400, tag="multi-" + tag + ("-live" if live else ""))
+    res.add_tlc(r)
+    if r.violation:
+        res.tlc_violation(r, "MC_MultiConn " + tag)
+    return r
+
+
+def check_C13(tier):
+    res = Result("C13", tier, "model_checking")
+    vh = build_harness()
+    thorough = tier == "thorough"
+    # (1) composition: N connections over the pool, each served with the reference semantics
+    multiconn_model(res, 1, 2, 2, 2, "1_2_2")
+    multiconn_model(res, 2, 2, 2, 1, "live", live=True)
+    if thorough:
+        multiconn_model(res, 2, 3, 3, 1, "2_3_3")
+        multiconn_model(res, 1, 3, 3, 1, "live3", live=True)
+    # (2) real clients: 2..16 / 2..64 concurrent, unix and tcp, with idle / silent / disconnecting / garbage peers
+    plan = [(2, 0, 60, "unix"), (8, 4, 240, "unix"), (16, 8, 320, "unix"), (8, 4, 160, "tcp")]
+    if thorough:
+        plan = [(2, 0, 200, "unix"), (8, 4, 800, "unix"), (16, 8, 1600, "unix"), (32, 12, 1600, "unix"), (64, 16, 1920, "unix"),
+                (8, 4, 800, "tcp"), (32, 8, 1280, "tcp"), (64, 16, 1280, "tcp")]
+    nconn = 0
+    for k, (clients, bad, conns, transport) in enumerate(plan):
+        s = multi_trace(res, vh, "c%d-%s-%d" % (clients, transport, k), clients, bad, conns, 24 if thorough else 12, transport)
+        nconn += s["conns"]
+        res.sample({"clients": clients, "misbehaving_peers": bad, "connections": s["conns"], "requests": s["requests"], "transport": transport})
+    res.nontrivial_count = nconn
+    res.rule = ("MultiConn.tla: N connections over the pool, every interleaving (TLC), PerConnRefines / OwnRepliesOnly / IdleDoesNotBlock; "
+                "real server: concurrent clients each pipelining seeded random sequences with unique tokens, random segmentation and delays, "
+                "beside idle, silent, mid-message-disconnecting and garbage-sending peers; each connection's reply stream validated by "
+                "Trace_Conn for its own input (a foreign token is rejected); non-trivial = connections validated (each with its own random "
+                "sequence)")
+    res.exhaustive = False
+    res.assumptions = ["real schedules are sampled (thousands of OS schedules by randomised timing), only the model is explored exhaustively",
+                       "worker limit is above the number of simultaneous connections (the property's premise)"]
+    return res.finish()
+
+
+LISTEN_INVS = ["Bounded", "NoStranding", "TimeoutOnlyWhenIdleLongEnough", "NeverTimeoutWhileServing",
+               "NoTimeoutWithStopAndZeroIdle", "OkOnlyByStop", "ReturnAfterDrain", "UnlinkAfterDrain"]
+
+
+def listen_model(res, initial, mx, njobs, has_stop, idle, tag, live=False):
+    consts = dict(pool_consts(initial, mx, njobs), HasStop=has_stop, IdleTicks=idle, MaxTime=max(2 * idle + 2, 3))
+    del consts["Emit"]
+    if live:
+        cfg = write_cfg(os.path.join(res.wd, "MC_Listen_live_%s.cfg" % tag), spec="LFairSpec", constants=consts,
+                        properties=["ReturnsPromptly2"], constraints=["TimeBound"])
+    else:
+        cfg = write_cfg(os.path.join(res.wd, "MC_Listen_%s.cfg" % tag), spec="LSpec", constants=consts,
+                        invariants=LISTEN_INVS, properties=["StopHonoured", "NoAcceptAfterReturn"], constraints=["TimeBound"])
+    r = run_tlc("MC_Listen", cfg, res.wd, workers=8, timeout=1500, tag="listen-" + tag + ("-live" if live else ""))
+    res.add_tlc(r)
+    if r.violation:
+        res.tlc_violation(r, "MC_Listen " + tag)
+    return r
+
+
+def run_parallel_vh(vh, sub, parts, wd, extra, prefix):
+    """several vh processes side by side (the probe callback is process-global: one listen() per process)"""
+    import subprocess
+    procs = []
+    for p in range(parts):
+        out = os.path.join(wd, "%s-%d.ndjson" % (prefix, p))
+        e = dict(os.environ, VERIF_WORK=WORK, VERIF_SEED=str(seed()))
+        procs.append((out, subprocess.Popen([vh, sub, "--parts=%d" % parts, "--part=%d" % p, "--out=" + out] + extra,
+                                            stdout=subprocess.PIPE, stderr=subprocess.DEVNULL, text=True, env=e)))
+    fails, total, events = [], 0, 0
+    traces = []
+    for out, pr in procs:
+        try:
+            so, _ = pr.communicate(timeout=1200)
+        except subprocess.TimeoutExpired:
+            pr.kill()
+            raise ToolError("vh %s timed out" % sub)
+        summ = None
+        for line in so.splitlines():
+            if line.startswith("{"):
+                j = json.loads(line)
+                if j.get("fail"):
+                    fails.append(j)
+                elif j.get("summary"):
+                    summ = j
+        if summ is None:
+            raise ToolError("vh %s produced no summary" % sub)
+        total += summ["executions"]
+        events += summ.get("events", 0)
+        traces.append(out)
+    return fails, total, events, traces
+
+
+def check_C15(tier):
+    res = Result("C15", tier, "model_checking")
+    vh = build_harness()
+    thorough = tier == "thorough"
+    # (1) the loop in logical time on top of the pool model
+    cfgs = [(1, 1, 2), (1, 2, 2)] if not thorough else [(1, 1, 2), (1, 2, 3), (2, 3, 3)]
+    for (i, m, n) in cfgs:
+        for has_stop in (False, True):
+            for idle in (0, 1, 2):
+                if not has_stop and idle == 0 and not thorough:
+                    continue
+                listen_model(res, i, m, n, has_stop, idle, "%d_%d_%d_%s_%d" % (i, m, n, "s" if has_stop else "n", idle))
+    listen_model(res, 1, 2, 2, True, 1, "live", live=True)
+    # (2) the real listen() under the scenario driver; probes + driver events in one trace
+    fails, total, events, traces = run_parallel_vh(vh, "listen", 8, res.wd, ["--reps=%d" % (4 if thorough else 1)], "listen-trace")
+    res.add_failures(fails, "scenarios")
+    res.traces += total
+    res.evaluations += total
+    res.extra["trace_events"] = events
+    allp = os.path.join(res.wd, "listen-trace-all.ndjson")
+    with open(allp, "w") as fo:
+        for t in traces:
+            fo.write(open(t).read())
+    validate_trace(res, "Trace_Listen", allp, "listentrace",
+                   consts={"Initial": 1, "Max": 4, "NJobs": 5, "MaxWorkers": 6, "CountAtEnqueue": True, "LeLimit": False,
+                           "HasStop": True, "IdleTicks": 0})
+    scen = set()
+    for line in open(allp):
+        j = json.loads(line)
+        if j.get("ev") == "reset":
+            scen.add((j["scenario"], j["has_stop"], j["idle_ms"], j["transport"]))
+            res.sample(j)
+    res.nontrivial = scen
+    res.rule = ("Listen.tla (accept loop over Pool.tla, logical time) for idle 0/1/2 x stop flag absent/present x pool sizes x <= 2/3 "
+                "connections with arbitrary arrival/finish points; real listen() driven through scenario templates (no connection, just "
+                "before the deadline, long-lived across deadlines, closing at the deadline, stop before/while/after connections, streaming "
+                "reply in flight, queued connection at stop) with seeded timing jitter on unix/abstract/tcp; non-trivial = distinct "
+                "(scenario, stop, idle, transport)")
+    res.exhaustive = True
+    res.assumptions = ["wall clock enters only as lower bounds with 50 ms slack and generous upper bounds",
+                       "signals interrupting select() are outside this property's quantifier and are not driven"]
+    return res.finish()
